@@ -19,6 +19,76 @@ type SymPtr struct {
 	idx  *Term // 64-bit, already bounds-checked
 }
 
+// Wide is the content of a cell of a wide-element array (int16, float64, ...)
+// that is currently aliased by a narrower reinterpreting view created with
+// unsafe.Slice: the real storage lives in the view's cells (little-endian).
+type Wide struct {
+	tt      *TermTab
+	view    Slice // the narrow view
+	off     int   // index of the first part in view
+	n       int   // number of parts
+	isFloat bool
+	f32     bool
+	r       *Run
+}
+
+func (w Wide) val() Value {
+	t := cellTerm(w.view[w.off])
+	for b := 1; b < w.n; b++ {
+		t = w.tt.Concat(cellTerm(w.view[w.off+b]), t)
+	}
+	if w.isFloat {
+		return w.r.floatFromBits(t, int(t.sort))
+	}
+	return t
+}
+
+func (w Wide) set(v Value) {
+	var bits *Term
+	switch x := v.(type) {
+	case *Term:
+		bits = x
+	case Float:
+		width := 64
+		if w.f32 {
+			width = 32
+		}
+		bits = w.r.floatBits(x, width)
+	case Wide:
+		w.set(x.val())
+		return
+	default:
+		panic(fmt.Sprintf("Wide.set: %T", v))
+	}
+	pw := int(bits.sort) / w.n
+	for b := 0; b < w.n; b++ {
+		setCell(&w.view[w.off+b], w.tt.Extract(bits, b*pw+pw-1, b*pw))
+	}
+}
+
+// cellTerm reads a scalar cell as a term (resolving Wide cells).
+func cellTerm(v Value) *Term {
+	switch x := v.(type) {
+	case *Term:
+		return x
+	case Wide:
+		return x.val().(*Term)
+	}
+	panic(fmt.Sprintf("cellTerm: %T", v))
+}
+
+// setCell overwrites a cell, writing through Wide cells.
+func setCell(p *Value, v Value) {
+	if w, ok := (*p).(Wide); ok {
+		w.set(v)
+		return
+	}
+	if w, ok := v.(Wide); ok {
+		v = w.val()
+	}
+	*p = v
+}
+
 func (r *Run) constValue(c *ssa.Const) Value {
 	if c.Value == nil {
 		return r.zero(c.Type())
@@ -112,9 +182,9 @@ func (r *Run) load(fr *frame, T types.Type, addr Value) Value {
 		return copyVal(v)
 	case SymPtr:
 		n := len(p.back)
-		res := p.back[n-1].(*Term)
+		res := cellTerm(p.back[n-1])
 		for i := n - 2; i >= 0; i-- {
-			res = r.tt.Ite(r.tt.Eq(p.idx, r.tt.Const(64, uint64(i))), p.back[i].(*Term), res)
+			res = r.tt.Ite(r.tt.Eq(p.idx, r.tt.Const(64, uint64(i))), cellTerm(p.back[i]), res)
 		}
 		return res
 	case UPtr:
@@ -152,7 +222,7 @@ func (r *Run) storeInto(T types.Type, addr *Value, v Value) {
 			r.storeInto(T.Elem(), &lhs[i], rhs[i])
 		}
 	default:
-		*addr = v
+		setCell(addr, v)
 	}
 }
 
@@ -168,8 +238,8 @@ func (r *Run) store(fr *frame, T types.Type, addr Value, v Value) {
 	case SymPtr:
 		nv := v.(*Term)
 		for i := range p.back {
-			old := p.back[i].(*Term)
-			p.back[i] = r.tt.Ite(r.tt.Eq(p.idx, r.tt.Const(64, uint64(i))), nv, old)
+			old := cellTerm(p.back[i])
+			setCell(&p.back[i], r.tt.Ite(r.tt.Eq(p.idx, r.tt.Const(64, uint64(i))), nv, old))
 		}
 	case UPtr:
 		if len(p.back) == 0 {
@@ -267,7 +337,7 @@ func (r *Run) index(fr *frame, instr *ssa.Index) Value {
 		if idx.IsConst() {
 			return copyVal(x[idx.val])
 		}
-		if _, ok := x[0].(*Term); ok {
+		if isTermCell(x[0]) {
 			return r.load(fr, nil2(instr.Type()), SymPtr{back: Slice(x), idx: idx})
 		}
 		return copyVal(x[r.concretizeInt(fr, idx, false)])
@@ -284,6 +354,16 @@ func (r *Run) index(fr *frame, instr *ssa.Index) Value {
 }
 
 func nil2(t types.Type) types.Type { return t }
+
+func isTermCell(v Value) bool {
+	switch x := v.(type) {
+	case *Term:
+		return true
+	case Wide:
+		return !x.isFloat
+	}
+	return false
+}
 
 func (r *Run) slice(fr *frame, instr *ssa.Slice, x, lo, hi, max Value) Value {
 	var n, c int
@@ -1092,7 +1172,9 @@ func (r *Run) callBuiltin(fr *frame, pos token.Pos, fn *ssa.Builtin, args []Valu
 			for i := 0; i < n; i++ {
 				tmp[i] = copyVal(src[i])
 			}
-			copy(dst, tmp)
+			for i := 0; i < n; i++ {
+				setCell(&dst[i], tmp[i])
+			}
 			return tt.Const(64, uint64(n))
 		}
 		fr.unsupported("copy from %T", args[1])
@@ -1266,8 +1348,15 @@ func (r *Run) unsafeSlice(fr *frame, p Value, n *Term) Value {
 		}
 	}
 	src := up.back[:cap(up.back)]
-	// explode source into bytes (little-endian)
 	need := (nbytes + ssz - 1) / ssz
+	// an existing narrow view of the same store: alias it
+	if w0, ok := src[0].(Wide); ok && dsz < ssz && w0.n == ssz/dsz {
+		if w0.off+cnt <= len(w0.view) {
+			return w0.view[w0.off : w0.off+cnt : w0.off+cnt]
+		}
+		fr.unsupported("second unsafe view larger than the first")
+	}
+	// explode source into bytes (little-endian)
 	bytes := make([]*Term, 0, need*ssz)
 	for i := 0; i < need; i++ {
 		var bits *Term
@@ -1276,6 +1365,13 @@ func (r *Run) unsafeSlice(fr *frame, p Value, n *Term) Value {
 			bits = e
 		case Float:
 			bits = r.floatBits(e, ssz*8)
+		case Wide:
+			switch ev := e.val().(type) {
+			case *Term:
+				bits = ev
+			case Float:
+				bits = r.floatBits(ev, ssz*8)
+			}
 		default:
 			fr.unsupported("unsafe.Slice over %T elements", e)
 		}
@@ -1295,7 +1391,16 @@ func (r *Run) unsafeSlice(fr *frame, p Value, n *Term) Value {
 			out[i] = t
 		}
 	}
-	r.noteAssumption("unsafe.Slice reinterpretation between element widths is modelled as a little-endian converted copy (no write-through)")
+	if dsz < ssz && ssz%dsz == 0 && !isFloat(up.as) && nbytes == need*ssz {
+		// narrow integer view of a wider store: the view holds the storage from now on,
+		// the wide cells become write-through aliases (both directions visible)
+		k := ssz / dsz
+		for i := 0; i < need; i++ {
+			src[i] = Wide{tt: r.tt, view: out, off: i * k, n: k, isFloat: isFloat(up.elem), f32: isFloat(up.elem) && ssz == 4, r: r}
+		}
+		return out
+	}
+	r.noteAssumption("unsafe.Slice widening/float reinterpretation is modelled as a little-endian converted copy (no write-through); narrowing integer views alias the store")
 	return out
 }
 
